@@ -422,6 +422,14 @@ func (w *kqueue) addWatch(name string, flags uint32, listDir bool) (string, erro
 
 	if !alreadyWatching {
 		w.watches.add(name, info.linkName, info.wd, info.isDir)
+		if w.isClosed() {
+			// Close() ran while we were setting this up and may already be
+			// past the point where it releases the descriptors; don't leave
+			// this one behind.
+			w.watches.remove(info.wd, name)
+			unix.Close(info.wd)
+			return "", ErrClosed
+		}
 	}
 
 	// Watch the directory if it has not been watched before, or if it was
